@@ -117,7 +117,14 @@ func (m *RWMutex) lock(write bool) {
 		}
 		s.Add(&sim.Item{Key: "lock:" + site,
 			Ready: func() bool { gmu.Lock(); defer gmu.Unlock(); return !m.writer && m.readers == 0 },
-			Fire:  func(int) { gmu.Lock(); m.wwait--; m.writer = true; m.holder = site; gmu.Unlock(); close(ch) }})
+			Fire: func(int) {
+				gmu.Lock()
+				m.wwait--
+				m.writer = true
+				m.holder = site
+				gmu.Unlock()
+				close(ch)
+			}})
 	} else {
 		w := &rwaiter{}
 		gmu.Lock()
